@@ -245,13 +245,10 @@ def _convert_call(node: ast.Call) -> libsbml.ASTNode:
     raise NotImplementedError(msg)
 
 
-def _convert_compare(node: ast.Compare) -> libsbml.ASTNode:
-    # FIXME: handle cases such as x < y < z
-
-    left = _convert_node(node.left)
-    right = _convert_node(node.comparators[0])
-
-    match node.ops[0]:
+def _convert_comparison(
+    cmpop: ast.cmpop, left: ast.expr, right: ast.expr
+) -> libsbml.ASTNode:
+    match cmpop:
         case ast.Eq():
             op = libsbml.AST_RELATIONAL_EQ
         case ast.NotEq():
@@ -265,11 +262,27 @@ def _convert_compare(node: ast.Compare) -> libsbml.ASTNode:
         case ast.GtE():
             op = libsbml.AST_RELATIONAL_GEQ
         case _:
-            raise NotImplementedError(type(node.ops[0]))
+            raise NotImplementedError(type(cmpop))
 
     sbml_node = libsbml.ASTNode(op)
-    sbml_node.addChild(left)
-    sbml_node.addChild(right)
+    sbml_node.addChild(_convert_node(left))
+    sbml_node.addChild(_convert_node(right))
+    return sbml_node
+
+
+def _convert_compare(node: ast.Compare) -> libsbml.ASTNode:
+    # x < y < z is (x < y) and (y < z)
+    operands = [node.left, *node.comparators]
+    links = [
+        _convert_comparison(cmpop, left, right)
+        for cmpop, left, right in zip(node.ops, operands, operands[1:], strict=False)
+    ]
+    if len(links) == 1:
+        return links[0]
+
+    sbml_node = libsbml.ASTNode(libsbml.AST_LOGICAL_AND)
+    for link in links:
+        sbml_node.addChild(link)
     return sbml_node
 
 
